@@ -283,7 +283,7 @@ def run_node(script, jobs, timeout=1200, args=None):
     """Feed JSON lines to tools/<script> (Node) and return the parsed JSON lines it prints (None on failure)."""
     inp = "\n".join(json.dumps(j) for j in jobs) + "\n"
     try:
-        p = subprocess.run(["node", os.path.join(ROOT, "tools", script)] + list(args or []), input=inp.encode(),
+        p = subprocess.run(["node", "--experimental-vm-modules", "--no-warnings", os.path.join(ROOT, "tools", script)] + list(args or []), input=inp.encode(),
                            stdout=subprocess.PIPE, stderr=subprocess.PIPE, timeout=timeout,
                            env=dict(os.environ, VERIF_REPO=REPO))
     except subprocess.TimeoutExpired:
